@@ -600,7 +600,10 @@ class _VersionIndependentUnmarshaller:
                 )
                 co_exceptiontable = self.r_object(bytes_for_s=bytes_for_s)
             else:
-                co_lnotab = self.r_object(bytes_for_s=bytes_for_s)
+                # The line table is a byte string in every version: as text,
+                # bytes >= 0x80 that happen to form UTF-8 sequences would
+                # collapse into single characters.
+                co_lnotab = self.r_object(bytes_for_s=True)
         else:
             # < 1.5 there is no lnotab, so no firstlineno.
             # SET_LINENO is used instead.
